@@ -165,7 +165,8 @@ class Run(object):
                     val = {"signal/names": "RELOAD HUP NEWNYM", "version": "0.4.8.0", "events/names": "CIRC STREAM"}.get(key, "x")
                     self.feed("250-%s=%s\r\n250 OK\r\n" % (key, val))
             elif a == "Disconnect":
-                self.proto.connectionLost(failure.Failure(error.ConnectionLost("injected")))
+                reason = error.ConnectionDone("injected") if e.get("clean") else error.ConnectionLost("injected")
+                self.proto.connectionLost(failure.Failure(reason))
             else:
                 raise ValueError(a)
         except Exception:
